@@ -49,15 +49,10 @@ n == Len(w)
 
 T_Mean == On => /\ IsWeightedMean(WMean(w, e), w, e)
                 /\ \A k \in DOMAIN errs : errs[k][1] >= 0 /\ errs[k][2] > 0
-T_B1 == On => Err2(w, e, 1) = RDiv(PairVar(w, e), R(n - 1))
-T_Scale == On => \A c \in Scales : /\ WMean(Scale(w, c), e) = WMean(w, e)
-                                   /\ Errs2(Scale(w, c), e) = errs
-T_Shift == On => \A c \in Shifts : /\ WMean(w, Shift(e, c)) = RAdd(WMean(w, e), R(c))
-                                   /\ Errs2(w, Shift(e, c)) = errs
-T_Const == On /\ IsConst(e) =>
-  /\ WMean(w, e) = R(e[1])
-  /\ \A k \in DOMAIN errs : errs[k] = <<0, 1>>
-  /\ PlateauOf(errs) \in {None, <<0, 1>>}
+T_B1 == On => B1Formula(w, e)
+T_Scale == On => \A c \in Scales : ScaleInvariant(w, e, c, errs)
+T_Shift == On => \A c \in Shifts : ShiftCovariant(w, e, c, errs)
+T_Const == On => ConstNoError(w, e, errs)
 
 \* the loop of blocking_analysis, literally: state <<prevError^2, plateau>>
 RECURSIVE Loop(_, _, _, _)
